@@ -127,6 +127,7 @@ class Run(object):
             self.ok = set()
             self.failed = set()
             self.nth = {}
+            self.after_reply = set()      # attempts that started after the creating command was answered
             self.pre_reply_S_events = False
             self.want = None          # None | 'ok' | 'err'
             self.f_track = {}
@@ -164,10 +165,11 @@ class Run(object):
             self.dead = True
         elif ev[0] == 'lose':
             self.impl.wire.lose()
-            if not self.reply:
-                self.want = 'err'          # the creating command itself fails
+            if self.want is None and not fired_before:
+                self.want = 'err'          # the creating command fails, or - after it was answered - no upload event can arrive any more
+            elif self.want is None:
+                self.want = self.rec.kind  # (it had ended already, in a history judged by the safety clauses only)
             self.dead = True
-            self.lost_after_reply = self.reply
         else:
             kind, x, dnum = ev
             sid = self.sid if x == 'S' else F_ID
@@ -185,6 +187,8 @@ class Run(object):
                 if kind == 'U':
                     self.nth[dnum] = self.nth.get(dnum, 0) + 1
                     self.attempted.add((dnum, self.nth[dnum]))
+                    if self.reply:
+                        self.after_reply.add((dnum, self.nth[dnum]))
                 elif kind == 'OK':
                     self.ok.add((dnum, self.nth.get(dnum, 0)))
                 else:
@@ -203,14 +207,18 @@ class Run(object):
         if n > 1:
             self.viol.append(('fired-twice', mode, 'create() fired %d times after %r' % (n, self.log)))
             return
-        if getattr(self, 'lost_after_reply', False):
-            return            # no further events can arrive; what a lost connection means for a pending creation is C03's business
         if self.pre_reply_S_events and not self.dead:
             # Tor cannot report our uploads before it answered the creating command: safety clauses only
             if n and not self.reply:
                 self.viol.append(('completed-before-reply', self.kind, 'create() fired before the creating command was answered: %r' % (self.log,)))
             if n and self.rec.kind == 'ok' and not self.ok:
                 self.viol.append(('completed-without-own-upload', mode, '%r' % (self.log,)))
+            still = self.after_reply - self.ok - self.failed
+            if n == 1 and fired_before == 0 and self.rec.kind == 'ok' and self.await_all and still:
+                # whatever is made of the events that came before the reply: an upload that started after it is unresolved
+                self.viol.append(('completed-early', '%s/await-all/uploads-started-after-the-reply-outstanding' % self.kind,
+                                  'after %r: create() completed while the uploads %r, started after the reply, are unresolved'
+                                  % (self.log, sorted(still))))
             return
         got = None if n == 0 else self.rec.kind
         if got != self.want:
@@ -369,8 +377,42 @@ def run_refused(i, await_all):
     return dict(viol=viol, outcome=outcome)
 
 
+def run_auth_discard(await_all, outcome):
+    """an authenticated ephemeral service whose key Tor is asked to discard: the client never holds the key, the service id is
+    what Tor answered.  Reply, UPLOAD, then UPLOADED (outcome 'ok') or FAILED ('failed') for that id."""
+    from txtorcon.onion import DISCARD
+    viol = []
+    with World() as w:
+        impl = CfgImpl(w, [('SocksPort', ['9050'])])
+        sim = impl.sim
+        sim.onion_id_hook = lambda req: RSA_SID
+        d = EphemeralAuthenticatedOnionService.create(w.reactor, impl.cfg, ['80 127.0.0.1:8080'], auth=AuthBasic(['alice']),
+                                                      private_key=DISCARD, version=2, await_all_uploads=await_all)
+        rec = DRec(d)
+        sim.pump()
+        if rec.fires:
+            viol.append(('completed-early', 'ephemeral-auth-discard', 'create() fired right after the reply: %r' % (rec.summary(),)))
+        hd = hsdir_name(1)
+        sim.event('HS_DESC UPLOAD %s UNKNOWN %s desc1' % (RSA_SID, hd))
+        sim.event('HS_DESC %s %s UNKNOWN %s%s' % ('UPLOADED' if outcome == 'ok' else 'FAILED', RSA_SID, hd,
+                                                  '' if outcome == 'ok' else ' desc1 REASON=UPLOAD_REJECTED'))
+        sim.pump()
+        want = 'ok' if outcome == 'ok' else 'err'
+        got = rec.kind if rec.fires else None
+        if got != want and not viol:
+            viol.append(('not-completed-when-due' if got is None else 'wrong-outcome-%s-instead-of-%s' % (got, want),
+                         'ephemeral-auth-discard/%s' % ('await-all' if await_all else 'first-upload'),
+                         'after the reply, UPLOAD and %s for the id Tor assigned: create() is %r' % ('UPLOADED' if outcome == 'ok' else 'FAILED', rec.summary())))
+        if rec.fires and 'HS_DESC' in impl.proto.events:
+            viol.append(('subscription-left', 'ephemeral-auth-discard', 'HS_DESC still subscribed'))
+        errs = [e for e in w.errors() if 'dataReceived raised' not in e[0]]
+        if errs and not viol:
+            viol.append(('logged-error', errs[0][1], '%r' % (errs[:1],)))
+    return dict(viol=viol, outcome=got)
+
+
 def tasks(tier, seed):
-    out = [('refused', None, 0, None)]
+    out = [('refused', None, 0, None), ('authdiscard', None, 0, None)]
     for kind in KINDS:
         for await_all in (False, True):
             nd = 2 if tier == 'quick' or kind.endswith('-auth') else 3
@@ -392,6 +434,15 @@ def tasks(tier, seed):
 
 def run_task(param, acc):
     kind, await_all, nd, first = param
+    if kind == 'authdiscard':
+        for aa in (False, True):
+            for oc in ('ok', 'failed'):
+                r = run_auth_discard(aa, oc)
+                acc.execution(key=('authdiscard', aa, oc), outcome='authdiscard/' + ('/'.join(sorted(set(v[0] for v in r['viol']))) or str(r['outcome'])),
+                              nontrivial=True, steps=3)
+                for clause, feat, detail in r['viol']:
+                    acc.violation('%s/%s' % (clause, feat), detail, dict(kind='authdiscard', await_all=aa, outcome=oc), cost=3)
+        return
     if kind == 'refused':
         for i in range(len(REFUSED)):
             for aa in (False, True):
@@ -490,6 +541,9 @@ def handle(acc, kind, await_all, nd, hist, r):
 
 
 def replay(p):
+    if p['kind'] == 'authdiscard':
+        r = run_auth_discard(p['await_all'], p['outcome'])
+        return dict(violations=[dict(signature='%s/%s' % (c, f), what=d) for c, f, d in r['viol']], log=[])
     if p['kind'] == 'refused':
         r = run_refused(p['case'], p['await_all'])
         return dict(violations=[dict(signature='%s/%s' % (c, f), what=d) for c, f, d in r['viol']], log=[repr(REFUSED[p['case']])])
